@@ -21,7 +21,7 @@ CORNERS = [0.0, -0.0, 1e-8, -1e-8, 0.5e-8, -0.5e-8, 1.0, -1.0, 123456.789, -1234
 COMMENTS = [None, "", "   ", "12345", "# comment", "H 0.0 0.0 0.0", "énergie = -1.5 Eₕ", "a\tb  c",
             "title\u2028H 9.0 9.0 9.0", "form\x0cfeed", "unit\x1fsep \x1c \x85 next", "vt\x0bx"]
 BOUNDS = {"quick": "text: n in 1..3 atoms, element of atom 0 from 14 spread over the table (others from 6), 14 corner coordinate values on selected positions, 12 comments (incl. U+2028, FF, VT, unit/file separators, NEL inside the comment line); "
-                   "kernel: <= 3 atoms, all real coordinates, element pairs from 6 elements; chains of 2..300 atoms (sizes around 64, 128, 256) in 3 element patterns x 3 atom orders against the O(n^2) definition",
+                   "kernel: <= 3 atoms, all real coordinates, element pairs from 6 elements; chains of 2..300 atoms (sizes around 64, 128, 256) in 3 element patterns x 3 atom orders against the O(n^2) definition; the same Geometry object shifted / stretched in place between two from_geometry calls",
           "thorough": "text: all 118 elements for atom 0; kernel: <= 4 atoms, element pairs from 12 elements"}
 OUTSIDE = ("the text round trip for every float (format(x,'.8f') and numpy.loadtxt are C code; a finite corner set is exercised); comments containing a newline; "
            "floating-point evaluation of the distance test within rounding error of the cut-off")
